@@ -10,6 +10,7 @@ import (
 	"github.com/uhn/ggql/pkg/ggql"
 
 	"verif/sim/core"
+	"verif/sim/iosim"
 	"verif/sim/sched"
 	"verif/sim/tape"
 	"verif/workload"
@@ -56,6 +57,38 @@ func resolveLite(root *ggql.Root, req *workload.Request, vars map[string]interfa
 		}
 	}()
 	return workload.CanonLite(root.ResolveString(req.Src, req.Op, vars))
+}
+
+// request delivery modes (how the text of a request reaches the library)
+const (
+	c12String     = iota // ResolveString
+	c12Reader            // ResolveReader over a paced reader: every Read is a scheduling point
+	c12ReaderFail        // ... that fails at byte 0, 1 or 2 (a request refused at its first bytes)
+	c12BrokenBOM         // ... whose text starts with a broken byte order mark
+)
+
+// resolveVia resolves a request through the delivery mode drawn for it. yield
+// is called at every Read of the reader modes.
+func resolveVia(root *ggql.Root, req *workload.Request, mode, k int, vars map[string]interface{}, yield func()) (out string) {
+	if mode == c12String {
+		return resolveLite(root, req, vars)
+	}
+	defer func() {
+		if r := recover(); r != nil {
+			out = "PANIC: " + fmt.Sprint(r)
+		}
+	}()
+	src := req.Src
+	plan := iosim.Plan{}
+	switch mode {
+	case c12ReaderFail:
+		plan = iosim.Plan{Kind: iosim.ErrAt, K: k}
+	case c12BrokenBOM:
+		src = "\xEF\xBB " + src
+	}
+	r := iosim.NewReader([]byte(src), plan)
+	r.OnRead = yield
+	return workload.CanonLite(root.ResolveReader(r, req.Op, vars))
 }
 
 func scalarOnly(v map[string]interface{}) bool {
@@ -138,6 +171,12 @@ func (c C12) Run(t *tape.Tape, opt core.RunOpt) (res core.Result) {
 			pool = append(pool, &workload.Request{Src: workload.CycleRequests[t.Draw(len(workload.CycleRequests))]})
 		}
 		res.Count("runs_type_cycle_requests", 1)
+	} else if strat == workload.StratReflect && t.Bool(1, 10) {
+		// one Go struct behind two GraphQL types, by value and by pointer
+		pool = pool[:0]
+		for k := 0; k < 2+t.Draw(2); k++ {
+			pool = append(pool, &workload.Request{Src: workload.LabelRequests[t.Draw(len(workload.LabelRequests))]})
+		}
 	} else if strat == workload.StratReflect && t.Bool(1, 8) {
 		// two Go structs behind one GraphQL type, whichever is seen first. The
 		// library looks a Go field up by name in the value at hand, so plain
@@ -159,6 +198,19 @@ func (c C12) Run(t *tape.Tape, opt core.RunOpt) (res core.Result) {
 		}
 		return copyVars(r.Vars)
 	}
+	// how each request of the pool reaches the library
+	modes := make([]int, len(pool))
+	modeK := make([]int, len(pool))
+	for i := range pool {
+		switch t.Draw(10) {
+		case 0, 1:
+			modes[i] = c12Reader
+		case 2:
+			modes[i], modeK[i] = c12ReaderFail, t.Draw(3)
+		case 3:
+			modes[i] = c12BrokenBOM
+		}
+	}
 	base := make([]string, len(pool))
 	for i, r := range pool {
 		var b [2]string
@@ -176,7 +228,9 @@ func (c C12) Run(t *tape.Tape, opt core.RunOpt) (res core.Result) {
 			cfgB.Fine = false
 			cfgB.Direct = nil
 			sb := sched.New(t, cfgB)
-			sb.Go("alone", func(tk *sched.Task) { b[k] = resolveLite(zb.Root, r, varsFor(r)) })
+			sb.Go("alone", func(tk *sched.Task) {
+				b[k] = resolveVia(zb.Root, r, modes[i], modeK[i], varsFor(r), func() { sb.Point(sched.KCallout, "Read", "") })
+			})
 			racesB := runScheduled(sb)
 			if sb.Deadlock != "" || sb.Runaway {
 				res.Evaluations = 1
@@ -231,7 +285,7 @@ func (c C12) Run(t *tape.Tape, opt core.RunOpt) (res core.Result) {
 				for _, ri := range idxs {
 					r := pool[ri]
 					sc.Stamp("invoke|req"+strconv.Itoa(ri), "call")
-					out := resolveLite(zr.Root, r, varsFor(r))
+					out := resolveVia(zr.Root, r, modes[ri], modeK[ri], varsFor(r), func() { sc.Point(sched.KCallout, "Read", "") })
 					sc.Stamp("return|req"+strconv.Itoa(ri), "call")
 					results[ti] = append(results[ti], slot{req: ri, resp: out})
 				}
